@@ -862,12 +862,10 @@ Proof.
   - (* J5 *) frame_v s t V; subst T; try reflexivity; unfold quiet; tsimp; auto.
   - (* J6 *) destruct (Nat.eqb_spec (head s) (chead T)) as [E|E]; cbn [fst].
     + assert (NI : ~ In (S t) (recs s)) by (intros X; apply JT in X; destruct LT; congruence).
-      eapply (vinv_frame s _ t); try reflexivity; try exact V; ssimp.
-      * subst T; reflexivity.
-      * tsimp. auto.
-      * unfold quiet; tsimp; auto.
-      * intros u r i n Hu. apply vscan_push; auto.
-        assert (Lu := Iloc u). unfold rlocal, rlocalP in Lu. destruct (pc (thr s u)); tauto.
+      eapply (vinv_frame s _ t); try reflexivity; try exact V; ssimp;
+        try (subst T; reflexivity); try (unfold quiet; tsimp; tauto).
+      intros u r i n Hu. apply vscan_push; auto.
+      assert (Lu := Iloc u). unfold rlocal, rlocalP in Lu. destruct (pc (thr s u)); tauto.
     + frame_v s t V; subst T; try reflexivity; unfold quiet; tsimp; auto.
   - admit.
   - admit.
